@@ -115,6 +115,11 @@ func w2Gen(r *rand.Rand, prop, tier string) *simrt.Case {
 				c.Program = append(c.Program, simrt.Op{Actor: m, Kind: "cycle", A: g, B: mask(), C: iters, D: pk[int64](r, session-200, session+200, session*2)})
 			}
 		}
+		if r.IntN(4) == 0 {
+			// the metadata store refuses group writes for a while (possibly longer than a session timeout):
+			// members that keep heartbeating stay members
+			c.Faults = append(c.Faults, simrt.Fault{Kind: "store.err", Op: "store.PutConsumerGroup", Nth: 2 + r.IntN(12), Count: pk(r, 3, 20, 120, 400)})
+		}
 	case "C15":
 		g := int64(r.IntN(2))
 		longLived := r.IntN(3) == 0 // everybody stays for several session timeouts, heartbeating well within them
